@@ -29,39 +29,7 @@ RowsUnsent = z3.Function('sql.rows_unsent', MapOO.sort, T.SeqO.sort)
 MaxKey = z3.Function('sql.max_key', MapOO.sort, T.Obj)
 
 
-class Schema:
-    def __init__(self, table, cols, types, unique):
-        self.table, self.cols, self.types, self.unique = table, cols, types, unique
-
-    def idx(self, c):
-        return self.cols.index(c)
-
-
-def parse_create(sql):
-    m = re.match(r'\s*CREATE TABLE IF NOT EXISTS (\w+)\s*\((.*)\)\s*;?\s*$', sql, re.S | re.I)
-    if not m:
-        return None
-    table = m.group(1)
-    cols, types, unique = [], [], []
-    for part in m.group(2).split(','):
-        toks = part.strip().split()
-        if not toks:
-            continue
-        name = toks[0]
-        if name == '_id':
-            continue
-        cols.append(name)
-        types.append(toks[1].upper() if len(toks) > 1 else 'BLOB')
-        if 'UNIQUE' in [t.upper() for t in toks]:
-            unique.append(name)
-    return Schema(table, cols, types, unique)
-
-
-def parse_index(sql):
-    m = re.match(r'\s*CREATE UNIQUE INDEX IF NOT EXISTS \w+ ON (\w+)\s*\(([^)]*)\)\s*;?\s*$', sql, re.I)
-    if not m:
-        return None
-    return m.group(1), [c.strip() for c in m.group(2).split(',')]
+from .sqlschema import Schema, parse_create, parse_index
 
 
 class Plugin:
